@@ -54,21 +54,24 @@ class AuxProcBase(object):
         from the auxiliary context.
         """
 
-        server.get_in_object(ctx)
-        if ctx.in_error is not None:
-            logger.exception(ctx.in_error)
-            return ctx.in_error
+        try:
+            server.get_in_object(ctx)
+            if ctx.in_error is not None:
+                logger.exception(ctx.in_error)
+                return ctx.in_error
 
-        server.get_out_object(ctx)
-        if ctx.out_error is not None:
-            logger.exception(ctx.out_error)
-            return ctx.out_error
+            server.get_out_object(ctx)
+            if ctx.out_error is not None:
+                logger.exception(ctx.out_error)
+                return ctx.out_error
 
-        server.get_out_string(ctx)
-        for s in ctx.out_string:
-            pass
+            server.get_out_string(ctx)
+            for s in ctx.out_string:
+                pass
 
-        ctx.close()
+        finally:
+            # the context is closed whether the auxiliary method failed or not
+            ctx.close()
 
     def process_context(self, server, ctx, p_ctx, p_error):
         """Override this to implement your own auxiliary processor."""
